@@ -175,6 +175,9 @@ PLASMAS = {
     "nonuniform": (_NONUNIFORM, "func", True),
     "slab": ([Sp("deuterium", 1, 2, lambda x, y, z, m: 5e19 * _slab(x, y, z), _c(1000.0), _cv(3e4, 0.0, -6e4)),
               Sp("carbon", 6, 12, lambda x, y, z, m: 8e17 * _slab(x, y, z), _c(800.0), _cv(0.0, 2e4, 5e4))], "func", False),
+    "charge-states": ([Sp("deuterium", 1, 2, _c(3e19), _c(1500.0), _cv(0.0, 0.0, 0.0)),       # two charge states of one element
+                       Sp("carbon", 5, 12, _c(6e17), _c(700.0), _cv(0.0, 0.0, 0.0)),
+                       Sp("carbon", 6, 12, _c(1.2e18), _c(900.0), _cv(0.0, 0.0, 0.0))], "func", True),
     "zero-rate": (_NONUNIFORM, "zero", True),
     "neutral": (_NONUNIFORM + [Sp("deuterium", 0, 2,
                                   lambda x, y, z, m: 3e18 * m.exp(-0.5 * x * x),
